@@ -29,6 +29,8 @@ func NewMemoryState[T public_types.PersistentType]() public_types.SharedStateI[T
 }
 
 func (p *memoryState[T]) WithClock(clock clock.Clock) public_types.SharedStateI[T] {
+	p.mutex.Lock()
+	defer p.mutex.Unlock()
 	p.clock = clock
 	return p
 }
